@@ -330,7 +330,7 @@ def _writes_of_path(p, sinks):
 
 def _tabulate_fold(f, clo, flag, elem_name, elem_adt, sinks, body=None, flag_from_env=False):
     """decision table of a fold closure over the variants of its element enum: {(flag, variant): (sep, emits, new flag)}"""
-    from .interp import Interp, Opaque, Var, Unsupported, Diverged
+    from .interp import Interp, Opaque, Var, Unsupported, Diverged, _Continue
     table = {}
     variants = f.adts[elem_adt]["variants"]
 
@@ -364,7 +364,10 @@ def _tabulate_fold(f, clo, flag, elem_name, elem_adt, sinks, body=None, flag_fro
                 return False
             it.opaque_call = hands_sink
             try:
-                r = it.ev(body if body is not None else clo["body"], env)
+                try:
+                    r = it.ev(body if body is not None else clo["body"], env)
+                except _Continue:
+                    r = None        # `continue`: the iteration ends here
                 if flag_from_env:
                     r = env.get(flag)
             except Diverged:
